@@ -319,3 +319,16 @@ func isModuleType(t types.Type) bool {
 
 // pkgInfo is a tiny helper to carry a package around.
 type pkgInfo = packages.Package
+
+// constNameByValue: the name of the constant of the named type typ (in pkg) whose value renders as val.
+func (p *Program) constNameByValue(pkg *packages.Package, typ string, val string) string {
+	scope := pkg.Types.Scope()
+	for _, name := range scope.Names() {
+		if c, ok := scope.Lookup(name).(*types.Const); ok {
+			if n, ok := c.Type().(*types.Named); ok && n.Obj().Name() == typ && constKey(c.Val()) == val {
+				return name
+			}
+		}
+	}
+	return ""
+}
